@@ -83,3 +83,49 @@ class NamedMetric(Contract):
             want = worst if self.agg == "worst_case" else "mean"
             out.append((f"combines_the_two_disparities_by_{want}", BoolVal(self.combine == want and isinstance(value, Abstract) and value.tag == "scalar")))
         return out
+
+
+class GeneratedMetricsTable(Contract):
+    """The module-level generation loop of fairlearn/metrics/_generated_metrics.py, executed symbolically (finite table, unrolled):
+    every listed (base metric, transform) pair yields exactly one entry  '<base>_<transform>' -> make_derived_metric(metric=base, transform=transform,
+    sample_param_names=['sample_weight'])  and nothing else; the function's __name__ is its key."""
+    source, function = "fairlearn/metrics/_generated_metrics.py", "<module>"
+
+    def params(self, eng, st):
+        pass
+
+    def on_attr(self, eng, st, node, base, attr):
+        if attr == "__name__":
+            nm = fname_of(base)
+            if nm:
+                return nm
+        return NotImplemented
+
+    def on_call(self, eng, st, node, name, recv, args, kwargs):
+        if name == "make_derived_metric":
+            return Abstract("derived", metric=fname_of(kwargs.get("metric")), transform=kwargs.get("transform"),
+                            spn=list(kwargs["sample_param_names"].items) if hasattr(kwargs.get("sample_param_names"), "items") else None, name=None)
+        return NotImplemented
+
+    def on_store_attr(self, eng, st, node, base, attr, value):
+        if isinstance(base, Abstract) and base.tag == "derived" and attr == "__name__":
+            base.name = value
+            return True
+        return NotImplemented
+
+    def post(self, eng, st, status, value):
+        spec = st.env.get("METRICS_SPEC")
+        table = st.env.get("_generated_metric_dict")
+        from ..pyvc.core import PyDict, PyList
+        if not (isinstance(spec, PyList) and isinstance(table, PyDict)):
+            return [("table_is_built", BoolVal(False))]
+        want = {}
+        for entry in spec.items:
+            base, variants = entry
+            for v in variants.items:
+                want[f"{fname_of(base)}_{v}"] = (fname_of(base), v)
+        ok_keys = list(table.d.keys()) == list(want.keys())
+        ok_vals = ok_keys and all(isinstance(f, Abstract) and f.tag == "derived" and (f.metric, f.transform) == want[k] and f.spn == ["sample_weight"] and f.name == k
+                                  for k, f in table.d.items())
+        return [("one_entry_per_listed_base_metric_and_transform", BoolVal(ok_keys)), ("every_entry_is_the_derived_metric_of_its_base_and_transform", BoolVal(bool(ok_vals))),
+                ("all_transforms_are_known", BoolVal(all(v[1] in ("difference", "ratio", "group_min", "group_max") for v in want.values())))]
